@@ -454,7 +454,58 @@ def rule_index(r):
             "self.Iq, self.dIq, self.index = Iq, dIq, index", store[0].lineno if store else 0)
 
 
+def rule_reach(r):
+    """The calculated grid is extended all the way to [q_min, q_max]: the number of added points is rounded *up*
+    (so at least one point is added whenever the bound lies outside the data) and the new points end on the bound."""
+    mod = pf.lib("resolution")
+    for qual, gen in (("linear_extrapolation", "np.linspace"), ("geometric_extrapolation", "np.logspace")):
+        fn = mod.func(qual)
+        for side in ("low", "high"):
+            ns = [st for st in pf.walk_stmts(fn) if isinstance(st, ast.Assign) and pf.unparse(st.targets[0]) == "n_" + side]
+            if not ns:
+                raise AnalysisError("%s: n_%s not found" % (qual, side))
+            v = ns[0].value
+            arms = [v.body, v.orelse] if isinstance(v, ast.IfExp) else [v]
+            ok = True
+            for a in arms:
+                c = pf.const_value(a)
+                if c is not None:
+                    ok = ok and c >= 1
+                    continue
+                inner = a
+                if isinstance(inner, ast.Call) and pf.call_name(inner) == "int" and inner.args:
+                    inner = inner.args[0]
+                ok = ok and isinstance(inner, ast.Call) and pf.call_name(inner) in ("np.ceil", "ceil", "math.ceil")
+            r.check(ok, R, qual, pf.unparse(ns[0]), ns[0].lineno,
+                    "count rounded up: >= 1 whenever the branch is taken" if ok else
+                    "the number of extension points is not rounded up: it can be 0, the grid then stops at the data and the "
+                    "resolution window of the outermost points is not spanned")
+            qs = [st for st in pf.walk_stmts(fn) if isinstance(st, ast.Assign) and pf.unparse(st.targets[0]) == "q_" + side
+                  and isinstance(st.value, ast.Subscript)]
+            okq = False
+            if qs:
+                call = qs[0].value.value
+                sl = pf.unparse(qs[0].value.slice)
+                if isinstance(call, ast.Call) and pf.call_name(call) == gen and len(call.args) >= 3:
+                    a0, a1, a2 = (pf.unparse(x) for x in call.args[:3])
+                    if side == "low":
+                        okq = "q_min" in a0 and a2 == "n_low + 1" and sl == ":-1"
+                    else:
+                        okq = "q_max" in a1 and a2 == "n_high + 1" and sl == "1:"
+            r.check(okq, R, qual, pf.unparse(qs[0]) if qs else "q_%s" % side, qs[0].lineno if qs else fn.lineno,
+                    "n+1 points from the bound to the data end, the shared end point dropped")
+        ret = [st for st in fn.body if isinstance(st, ast.Return)]
+        r.check(bool(ret) and pf.unparse(ret[0].value) == "np.concatenate([q_low, q, q_high])", R, qual, "return np.concatenate([q_low, q, q_high])",
+                ret[0].lineno if ret else 0)
+    for qual, callee in (("pinhole_extend_q", "linear_extrapolation"), ("slit_extend_q", "geometric_extrapolation")):
+        fn = mod.func(qual)
+        ret = [st for st in fn.body if isinstance(st, ast.Return)]
+        r.check(bool(ret) and pf.unparse(ret[0].value) == "%s(q, q_min, q_max)" % callee, R, qual, "return %s(q, q_min, q_max)" % callee,
+                ret[0].lineno if ret else 0)
+
+
 RULES = [
+    ("R-C03-reach", 12, "calculated grid reaches the window bounds", rule_reach),
     ("R-C03-sibling-args", 1, "callees sharing same-meaning formals get the same actuals", rule_sibling_args),
     ("R-C03-ctor-bind", 150, "every resolved library call binds against the callee signature", rule_ctor_bind),
     ("R-C03-normalise", 5, "normalisation post-dominates truncation; weighted mean in 2-D", rule_normalise),
